@@ -3,7 +3,10 @@ import time
 import traceback
 import types
 
-import z3
+try:
+    import z3
+except ImportError:      # replays run under the repository's interpreter, without z3
+    z3 = None
 
 from . import frontend
 from .api import Ty, Contract
@@ -59,6 +62,13 @@ def apply_contract(interp, c, func, args, kwargs):
     """Modular call: assert the precondition, havoc, assume the postcondition."""
     st = interp.st
     st.used_contracts.add(c.qname)
+    if c.returns is None:
+        from .api import _returns_a_value
+        if c.returns_value is None:
+            c.returns_value = _returns_a_value(func)
+        if c.returns_value:
+            raise Unsupported('contract of %s is used at a call site but gives no `returns` shape although the '
+                              'function returns a value (give returns=... or inline=True)' % c.qname)
     bound = bind_call_args(func, args, kwargs)
     ghosts = {}
     for g, ty in c.ghosts.items():
@@ -140,6 +150,7 @@ class FunctionReport:
         self.wall = 0.0
         self.unknown_feasibility = 0
         self.feasibility_queries = 0
+        self.slow_queries = []
 
 
 def verify_function(reg, c, budget_paths=MAX_PATHS):
@@ -192,6 +203,7 @@ def verify_function(reg, c, budget_paths=MAX_PATHS):
         rep.assumed_asserts |= stats.get('assumed_isinstance_asserts', set())
         rep.unknown_feasibility += st.unknown_feasibility
         rep.feasibility_queries += stats.get('feasibility_queries', 0)
+        rep.slow_queries.extend(stats.get('slow_queries', []))
     rep.wall = time.time() - t0
     return rep
 
